@@ -1839,6 +1839,12 @@ def known_matcher(k, what, replay):
         if isinstance(replay, dict) and replay.get('kind') == 'c01_exec':
             from . import c01_exec
             return 'read' in replay and c01_exec.walrus_in_comp_condition(replay['source'], replay['read'])
+        if isinstance(replay, dict) and replay.get('kind') == 'c02_exec':
+            from . import c01_exec
+            if 'read' in replay:
+                return c01_exec.walrus_in_comp_condition(replay['source'], replay['read'])
+            # the 'unused' form: the only binding of the name is that walrus, and an element of its comprehension reads it
+            return c01_exec.walrus_condition_binding_read_by_element(replay['source'], replay['name'])
         return has_walrus_in_comp(replay.get('program'))
     if cls == 'nonlocal-rebound-read':
         from . import c01_exec
@@ -1864,6 +1870,10 @@ def replay_file(prop, path):
     bad = 0
     for f in data.get('failing_inputs', []):
         rp_ = f['replay']
+        if isinstance(rp_, dict) and rp_.get('kind') == 'c02_exec':
+            from . import c01_exec, flowgraph
+            bad += 1 if c01_exec.replay_item_c02(flowgraph.load_supp(), rp_) else 0
+            continue
         prog = rp_['program']
         hints = _hints_from_json(rp_.get('hints', []))
         v = _violations(prop, prog, hints, 4096)
